@@ -593,15 +593,18 @@ fn resize_stream<F: Read + Write + Seek>(
             // existing chain.
             let mut chain =
                 minialloc.open_chain(old_start_sector, SectorInit::Zero)?;
+            let old_capacity = chain.len();
             chain.set_len(new_stream_len)?;
             debug_assert_eq!(chain.start_sector_id(), old_start_sector);
             if new_stream_len > old_stream_len {
-                // Newly allocated sectors are zeroed, but the rest of the old
-                // final sector may hold data from before an earlier shrink.
-                let sector_len = minialloc.sector_len() as u64;
-                let stale = (sector_len - old_stream_len % sector_len)
-                    % sector_len;
-                let stale = stale.min(new_stream_len - old_stream_len);
+                // Newly allocated sectors are zeroed, but what the chain
+                // already held beyond the old length is not: the rest of the
+                // old final sector may hold data from before an earlier
+                // shrink, and so may whole sectors if that shrink failed
+                // half-way (or if another writer left the chain too long).
+                let stale = old_capacity
+                    .min(new_stream_len)
+                    .saturating_sub(old_stream_len);
                 let mut chain =
                     minialloc.open_chain(old_start_sector, SectorInit::Zero)?;
                 chain.seek(SeekFrom::Start(old_stream_len))?;
